@@ -361,8 +361,14 @@ def _types_doc(root, name, imports=(), attrs=""):
     return "\n".join(out) + "\n"
 
 
-def gen_schema(rng, entry=None, variant=None, lines="thorough", bad=None):
-    """Schema documents with <import src>, <import package>, extends=."""
+def gen_schema(rng, entry=None, variant=None, lines="thorough", bad=None,
+               doctype=None):
+    """Schema documents with <import src>, <import package>, extends=.
+    With *doctype*, the top document (and the first base / library
+    document) carries a document type declaration naming an existing DTD
+    and declares and uses an external entity: ZConfig opens neither."""
+    if doctype is None:
+        doctype = rng.random() < 0.3
     entry = entry or rng.choice(SCHEMA_ENTRIES)
     variant = variant or rng.choice(["src", "src-chain", "pkg", "pkg-file",
                                      "extends", "extends-chain", "mixed",
@@ -432,7 +438,17 @@ def gen_schema(rng, entry=None, variant=None, lines="thorough", bad=None):
         top.append('  <section type="nosuchtype" name="*" attribute="zz"/>')
     top.append("</schema>")
     files["top.xml"] = "\n".join(top) + "\n"
-    return _scn("schema-" + variant, "schema", entry, files, "top.xml",
+    if doctype:
+        files["schema.dtd"] = "<!ELEMENT schema ANY>\n"
+        files["shared.ent"] = "<!-- nothing that matters -->\n"
+        head = ('<!DOCTYPE schema SYSTEM "@DIRURL@/schema.dtd" [\n'
+                '  <!ENTITY shared SYSTEM "@DIRURL@/shared.ent">\n]>\n')
+        for name in ("top.xml", "b1.xml", "t1.xml", "inc/t1.xml"):
+            if name in files:
+                files[name] = head + files[name].replace(
+                    ">\n", ">\n  &shared;\n", 1)
+    return _scn("schema-" + variant + ("-doctype" if doctype else ""),
+                "schema", entry, files, "top.xml",
                 packages=packages, lines=lines, note="bad" if bad else None)
 
 
@@ -493,6 +509,8 @@ def fixed_scenarios(rng):
         gen_schema(rng, "stringio", "extends", t, False),
         gen_schema(rng, "fileobj-rb", "src", t, False),
         gen_schema(rng, "path", "mixed", t, True),
+        gen_schema(rng, "url", "src", q, False, True),
+        gen_schema(rng, "stringio", "extends-chain", t, False, True),
         _scn("schema-shipped-logger", "schema", "path",
              {"top.xml": LOGGER_SCHEMA}, "top.xml", lines=t),
         _scn("config-on-logger-schema", "config", "path",
